@@ -92,3 +92,35 @@ def unit_eos():
     O.append(core.prove_zero('C03/sedov/eos:cs^2=gamma*p/rho', c_ ** 2 * D_ - gam * P_, [gam > 1], goal_text='sound_speed^2 == gamma pressure / density'))
     for o_ in O: o_.pop('cex_raw', None)
     return res
+
+
+def unit_shock(pid, j):
+    """C02 / C17: the shock state computed by the prefix of Sedov._run (r2, us, rho1, rho2, u2, p2), every constructor path without special singularity."""
+    res = {'obligations': [], 'functions': [{'ref': SRC + '::Sedov._run', 'sha256_16': R.source_hash(R.func_ref(SRC + '::Sedov._run'))}, {'ref': SRC + '::Sedov.__init__', 'sha256_16': R.source_hash(R.func_ref(SRC + '::Sedov.__init__'))}], 'engine_errors': []}; O = res['obligations']
+    try: paths = c11.ctor_paths(j, {})
+    except Unsupported as u_:
+        O.append(core.Obl('%s/sedov/geometry=%d/extraction' % (pid, j), 'open', 'extraction', 0.0, detail=str(u_)[:300])); return res
+    gm1 = gam - 1; cnt = {}
+    for p in paths:
+        if p.outcome != 'return': continue
+        o = p.value; A = o.attrs; typ, sing = A.get('solution_type'), A.get('special_singularity')
+        if sing != 'none': continue
+        cnt[typ] = cnt.get(typ, 0) + 1
+        base = '%s/sedov/geometry=%d/%s%s' % (pid, j, typ, '' if cnt[typ] == 1 else '~path%d' % cnt[typ]); hy = [gam > 1, om < j] + list(p.pc)
+        ALPHA = sp.Symbol('alpha_norm', positive=True); A['alpha'] = ALPHA
+        try: c11.shock_prefix(o)
+        except Unsupported as u_:
+            O.append(core.Obl(base + '/extraction', 'open', 'extraction', 0.0, detail=str(u_)[:300])); continue
+        r2, rho1, us, u2, rho2, p2 = [sp.sympify(A[n]) for n in ('r2', 'rho1', 'us', 'u2', 'rho2', 'p2')]
+        if pid == 'C02':
+            O.append(core.prove_zero(base + '/shock_speed', us - sp.diff(r2, t), hy, goal_text='us == d r2 / dt'))
+            O.append(core.prove_zero(base + '/rh:mass', rho2 * (us - u2) - rho1 * us, hy, goal_text='rho2 (us - u2) == rho1 us'))
+            O.append(core.prove_zero(base + '/rh:momentum', p2 + rho2 * (us - u2) ** 2 - rho1 * us ** 2, hy, goal_text='p2 + rho2 (us-u2)^2 == rho1 us^2 (p1 = 0)'))
+            O.append(core.prove_zero(base + '/rh:energy', gam / gm1 * p2 / rho2 + (us - u2) ** 2 / 2 - us ** 2 / 2, hy, goal_text='h2 + (us-u2)^2/2 == us^2/2 (cold gas ahead)'))
+            jm = A.get('jumps')
+        else:
+            O.append(core.prove_valid(base + '/shock:density_rises', hy, sp.simplify(rho2 / rho1) > 1, goal_text='rho2 / rho1 > 1 (compressive)'))
+            O.append(core.prove_valid(base + '/shock:pressure_rises', hy, p2 > 0, goal_text='p2 > p1 = 0'))
+            O.append(core.prove_valid(base + '/shock:moves_outwards', hy, sp.And(us > 0, u2 > 0, u2 < us), goal_text='0 < u2 < us'))
+    for o_ in O: o_.pop('cex_raw', None)
+    return res
